@@ -200,6 +200,10 @@ PredictedIsActual == phase = "done" => Len(yielded) = PredictedLen
 \*  later class than a longer one; whether equal lengths may be split is left open)
 LengthMonotone ==
   src = "lengths" => \A i, j \in Idx : lens[i] < lens[j] => i2b[i] <= i2b[j]
+\* a length CLASS is a set of lengths: two utterances of one length are never in different classes (with the
+\* monotonicity above: the classes are disjoint length ranges, whatever the boundaries are)
+SameLengthSameClass ==
+  src = "lengths" => \A i, j \in Idx : lens[i] = lens[j] => i2b[i] = i2b[j]
 \* the specification's own assignment additionally keeps equal lengths together, uses at most the
 \* requested number of classes and leaves none empty
 LengthClasses ==
